@@ -3,6 +3,7 @@ package main
 import (
 	"bytes"
 	"fmt"
+	"math"
 	"strconv"
 	"strings"
 	"time"
@@ -207,6 +208,9 @@ func init() {
 			cases = append(cases, c)
 		}
 		runSessions(r, cases, outputDiffers)
+		// the text that is rendered under a name is the text of the template registered under THAT name, also when the
+		// same tree is registered under several names and one of them is given another template later (regfree.go)
+		regFreePairings(r, "", "a template's text is rendered under a name it was not registered under (or not the text most recently registered under that name)", 2, r.N(600, 20000))
 	}
 	props["C02"] = func(r *Run) {
 		r.Rule = "random nestings of if/else, ternary and both switch forms over all six operators, var-op-literal / literal-op-var / var-op-var, every scalar kind, literals below/at/above the value, len() and helper conditions, " +
@@ -216,6 +220,69 @@ func init() {
 		for i := 0; i < r.N(5000, 150000); i++ {
 			c, _ := genCase(r, cfg)
 			cases = append(cases, c)
+		}
+		// the same conditions inside loops (indexed operands `x[i].f` on either side exist only there)
+		cfgL := GenCfg{MaxDepth: 3, MaxNodes: 14, Switch: true, Ternary: true, Loops: true}
+		for i := 0; i < r.N(1500, 50000); i++ {
+			c, _ := genCase(r, cfgL)
+			cases = append(cases, c)
+		}
+		usr := UserSpec{Id: "u1", Name: "nm", Status: 5, Ustate: 9, Cost: 14.5, HasFinance: true, Balance: 7.25, MoneyIn: 14.5, History: []History{{1, 14.5, "c0"}, {2, 7.25, "c1"}, {3, -1, "c1"}}}
+		// a name that held a value with an inspector of its own (a struct, a list, a typed ctx variable, a loop
+		// variable) becomes a COUNTER and is then compared: the comparison sees the counter
+		cmpAll := func(n string) string {
+			return `{% if ` + n + ` == 5 %}Y{% else %}N{% endif %}{% if 5 == ` + n + ` %}Y{% else %}N{% endif %}{% if ` + n + ` != 5 %}Y{% else %}N{% endif %}{% if ` + n + ` > 4 %}G{% else %}g{% endif %}` +
+				`{%= ` + n + ` >= 6 ? ya : na %}{% switch ` + n + ` %}{% case 4 %}four{% case 5 %}five{% default %}dflt{% endswitch %}{% switch %}{% case ` + n + ` < 5 %}lt{% case ` + n + ` == 5 %}eq{% endswitch %}[{%= ` + n + ` %}]`
+		}
+		type reb struct {
+			pre []SOp
+			src string
+		}
+		rebs := []reb{
+			{[]SOp{{Kind: "obj", Name: "x", Val: usr}, {Kind: "counter", Name: "x", Val: 5}}, cmpAll("x")},
+			{[]SOp{{Kind: "strs", Name: "x", Val: []string{"a", "b"}}, {Kind: "counter", Name: "x", Val: 5}}, cmpAll("x")},
+			{[]SOp{{Kind: "obj", Name: "x", Val: usr}}, `{% counter x = 5 %}` + cmpAll("x")},
+			{[]SOp{{Kind: "obj", Name: "x", Val: usr}}, `{% counter x = 4 %}{% counter x++ %}` + cmpAll("x")},
+			{[]SOp{{Kind: "strs", Name: "x", Val: []string{"a", "b"}}}, `{% counter x = 6 %}{% counter x-1 %}` + cmpAll("x")},
+			{[]SOp{{Kind: "obj", Name: "user", Val: usr}}, `{% for _, h := range user.Finance.History %}{% counter h = 5 %}` + cmpAll("h") + `;{% endfor %}`},
+			{[]SOp{{Kind: "obj", Name: "user", Val: usr}}, `{% for k, h := range user.Finance.History %}{% counter k = 5 %}` + cmpAll("k") + `;{% endfor %}`},
+			{[]SOp{{Kind: "obj", Name: "user", Val: usr}}, `{% ctx u = user %}{% counter u = 5 %}` + cmpAll("u")},
+			{[]SOp{{Kind: "obj", Name: "user", Val: usr}}, `{% ctx u = user.Finance %}[{%= u.Balance %}]{% counter u = 5 %}` + cmpAll("u")},
+			{[]SOp{{Kind: "static", Name: "x", Val: "str"}, {Kind: "counter", Name: "x", Val: 5}}, cmpAll("x")},
+			{[]SOp{{Kind: "bytes", Name: "x", Val: []byte("by")}, {Kind: "counter", Name: "x", Val: 5}}, cmpAll("x")},
+			{[]SOp{{Kind: "counter", Name: "x", Val: 9}, {Kind: "obj", Name: "x", Val: usr}}, `{% if x.Status == 5 %}Y{% else %}N{% endif %}{% if x.Cost > 14 %}G{% endif %}[{%= x.Id %}]`},
+		}
+		for _, rb := range rebs {
+			c := &RCase{Tpls: []TplDef{{Key: "main", Src: rb.src, KeepFmt: true}}, Meta: map[string]any{"rebound-as-counter": rb.src}}
+			c.Ops = append(append([]SOp{{Kind: "static", Name: "ya", Val: "a"}, {Kind: "static", Name: "na", Val: "b"}}, rb.pre...), SOp{Kind: "render", Key: "main"}, SOp{Kind: "render", Key: "main"})
+			cases = append(cases, c)
+			r.Dist["rebound-as-counter"]++
+		}
+		// both operands are variables and the RIGHT one is addressed through a loop counter (`x op arr[i].f`), inside
+		// counter loops (also nested, also as ternary / switch conditions), with every kind of left operand
+		for _, op := range []string{"==", "!=", "<", "<=", ">", ">="} {
+			for _, loop := range []string{`{% for i := 0; i < 3; i++ %}`, `{% for i := 2; i >= 0; i-- %}`, `{% for j := 0; j < 2; j++ %}{% for i := 0; i < 3; i++ %}`} {
+				end := `{% endfor %}`
+				if strings.Count(loop, "{% for") == 2 {
+					end += `/{% endfor %}`
+				}
+				body := `[{% if c ` + op + ` user.Finance.History[i].Cost %}T{% else %}F{% endif %}` +
+					`{% if user.Cost ` + op + ` user.Finance.History[i].Cost %}T{% else %}F{% endif %}` +
+					`{% if user.Finance.Balance ` + op + ` user.Finance.History[i].Cost %}T{% else %}F{% endif %}` +
+					`{%= ss ` + op + ` lst[i] ? ya : na %}{% if bs ` + op + ` lst[i] %}T{% else %}F{% endif %}` +
+					`{% switch %}{% case c ` + op + ` user.Finance.History[i].Cost %}one{% default %}dflt{% endswitch %}` +
+					`{% if n ` + op + ` user.Finance.History[i].DateUnix %}T{% else %}F{% endif %}`
+				if op == "==" || op == "!=" {
+					body += `{% if cm ` + op + ` user.Finance.History[i].Comment %}T{% else %}F{% endif %}{% if user.Name ` + op + ` user.Finance.History[i].Comment %}T{% else %}F{% endif %}`
+				}
+				body += `]`
+				c := &RCase{Tpls: []TplDef{{Key: "main", Src: loop + body + end, KeepFmt: true}}, Meta: map[string]any{"indexed-right-operand": op, "loop": loop}}
+				c.Ops = []SOp{{Kind: "static", Name: "ya", Val: "a"}, {Kind: "static", Name: "na", Val: "b"}, {Kind: "obj", Name: "user", Val: usr}, {Kind: "static", Name: "c", Val: 7.25}, {Kind: "static", Name: "n", Val: int64(2)},
+					{Kind: "bytes", Name: "cm", Val: []byte("c1")}, {Kind: "static", Name: "ss", Val: "b"}, {Kind: "string", Name: "bs", Val: "b"}, {Kind: "strs", Name: "lst", Val: []string{"a", "b", "c"}},
+					{Kind: "render", Key: "main"}, {Kind: "render", Key: "main"}}
+				cases = append(cases, c)
+				r.Dist["indexed-right-operand"]++
+			}
 		}
 		runSessions(r, cases, outputDiffers)
 	}
@@ -273,6 +340,50 @@ func init() {
 			c.Ops = []SOp{{Kind: "render", Key: "cntrs"}, {Kind: "reset"}, {Kind: "strs", Name: "lst", Val: []string{"a", "b"}}, {Kind: "render", Key: "main"}, {Kind: "reset"}, {Kind: "render", Key: "main"}}
 			cases = append(cases, c)
 			r.Dist["loop-after-counters"]++
+		}
+		// a range loop inside an INCLUDED template is ended by exit (or by a failing include); the range loops that
+		// follow in the including template (no separator, no element, one element) iterate and take their else branch as usual
+		for _, sub := range []string{`s{% for _, e := range lst %}{%= e %}{% exit %}{% endfor %}never`, `s{% for _, e := range lst %}{% for _, f := range lst %}{%= f %}{% exit %}{% endfor %}{% endfor %}never`,
+			`s{% for _, e := range lst %}{%= e %}{% include nosuch %}{% endfor %}never`, `s{% for _, e := range lst %}{%= e %}{% endfor %}`} {
+			for _, after := range []string{`{% for _, h := range none %}{%= h %}{% else %}E{% endfor %}`, `{% for _, h := range one %}{%= h %}{% else %}E{% endfor %}`, `{% for _, h := range lst %}{%= h %}{% else %}E{% endfor %}`,
+				`{% for k, h := range lst sep , %}{%= k %}{% else %}E{% endfor %}`, `{% for i := 0; i < 2; i++ %}{% for _, h := range none %}{%= h %}{% else %}E{% endfor %}{% endfor %}`} {
+				src := `<{% include sub %}>` + after + `|tail{% for _, h := range one %}{%= h %}{% endfor %}.`
+				c := &RCase{Tpls: []TplDef{{Key: "sub", Src: sub, KeepFmt: true}, {Key: "main", Src: src, KeepFmt: true}}, Meta: map[string]any{"range-loop-after-include-ended-in-a-loop": sub, "after": after}}
+				c.Ops = []SOp{{Kind: "strs", Name: "lst", Val: []string{"p", "q"}}, {Kind: "strs", Name: "one", Val: []string{"o"}}, {Kind: "strs", Name: "none", Val: []string{}}, {Kind: "render", Key: "main"}, {Kind: "render", Key: "main"}}
+				cases = append(cases, c)
+				r.Dist["range-loop-after-include"]++
+			}
+		}
+		// bounds and start values far apart (2^63 and more): "no limit" spelled as the largest / smallest integer, the
+		// loop ended by break; and the opposite — a loop that must not iterate at all
+		for _, fb := range []struct {
+			from, to int64
+			hdr      string
+			stop     int64
+		}{{1, math.MinInt64, `{% for i := from; i > to; i-- %}`, -2}, {-2, math.MaxInt64, `{% for i := from; i < to; i++ %}`, 1}, {-2, math.MaxInt64, `{% for i := from; i <= to; i++ %}`, 1},
+			{1, math.MinInt64, `{% for i := from; i >= to; i-- %}`, -1}, {math.MaxInt64, -2, `{% for i := from; i <= to; i++ %}`, 0}, {math.MaxInt64, -2, `{% for i := from; i < to; i++ %}`, 0},
+			{math.MinInt64, 1, `{% for i := from; i > to; i-- %}`, 0}, {math.MinInt64, 2, `{% for i := from; i >= to; i-- %}`, 0}, {math.MinInt64, math.MaxInt64, `{% for i := from; i < to; i++ %}`, math.MinInt64 + 2},
+			{math.MaxInt64, math.MinInt64, `{% for i := from; i > to; i-- %}`, math.MaxInt64 - 2}, {0, math.MinInt64, `{% for i := 0; i > -9223372036854775808; i-- %}`, -3}, {3, math.MaxInt64, `{% for i := 3; i < 9223372036854775807; i++ %}`, 5}} {
+			for _, how := range []string{"break", "lazybreak", "exit"} {
+				src := fb.hdr + `{%= i %}{% if i == stop %}{% ` + how + ` %}{% endif %},{% else %}E{% endfor %}|`
+				c := &RCase{Tpls: []TplDef{{Key: "main", Src: src, KeepFmt: true}}, Meta: map[string]any{"far-apart-bounds": fb.hdr, "from": fb.from, "to": fb.to}}
+				c.Ops = []SOp{{Kind: "static", Name: "from", Val: fb.from}, {Kind: "static", Name: "to", Val: fb.to}, {Kind: "static", Name: "stop", Val: fb.stop}, {Kind: "render", Key: "main"}, {Kind: "render", Key: "main"}}
+				cases = append(cases, c)
+				r.Dist["far-apart-bounds"]++
+			}
+		}
+		// the counter of a FINISHED counter loop is read while later (sibling) counter loops run — printed, compared
+		// and as the bound of a loop nested in the later one
+		for _, first := range []string{`{% for i := 0; i < 3; i++ %}{%= i %}{% endfor %}`, `{% for i := 5; i > 3; i-- %}.{% endfor %}`, `{% for i := 0; i < 2; i++ %}{% for q := 0; q < 2; q++ %}.{% endfor %}{% endfor %}`} {
+			for _, later := range []string{`{% for j := 0; j < 2; j++ %}[{%= i %}:{%= j %}]{% endfor %}`, `{% for j := 0; j < 2; j++ %}[{% for k := 0; k < i; k++ %}{%= k %}{% else %}E{% endfor %}]{% endfor %}`,
+				`{% for j := 7; j < 9; j++ %}{% if i == 3 %}three{% endif %}{% for k := 0; k < 2; k++ %}{% for l := 0; l < 2; l++ %}{%= i %}{% endfor %}{% endfor %};{% endfor %}`,
+				`{% for j := 0; j < 1; j++ %}{% endfor %}{% for k := 10; k < 12; k++ %}{%= i %}{%= j %}{%= k %},{% endfor %}`} {
+				src := first + `|` + later + `|{%= i %}`
+				c := &RCase{Tpls: []TplDef{{Key: "main", Src: src, KeepFmt: true}}, Meta: map[string]any{"finished-loop-counter-read-in-later-loop": first, "later": later}}
+				c.Ops = []SOp{{Kind: "render", Key: "main"}, {Kind: "render", Key: "main"}, {Kind: "reset"}, {Kind: "render", Key: "main"}}
+				cases = append(cases, c)
+				r.Dist["finished-loop-counter"]++
+			}
 		}
 		runSessions(r, cases, outputDiffers)
 		// names of loop variables are names (a relation on the real engine alone — the parser decides what is bound):
@@ -424,7 +535,11 @@ func init() {
 		for _, ka := range "cr" {
 			for _, kb := range "cr" {
 				for _, pair := range [][2]string{{"{% break 10 if c == 1 %}", "{% break 3 if c == 1 %}"}, {"{% lazybreak 12 if c == 0 %}", "{% lazybreak 3 if c == 0 %}"}, {"{% break 10 %}", "{% break 3 %}"},
-					{"{% lazybreak 25 %}", "{% lazybreak 3 %}"}, {"{% break 02 if c == 1 %}", "{% break 2 if c == 1 %}"}, {"{% lazybreak 02 %}", "{% lazybreak 2 %}"}, {"{% break 11 if c == 2 %}", "{% break 4 if c == 2 %}"}} {
+					{"{% lazybreak 25 %}", "{% lazybreak 3 %}"}, {"{% break 02 if c == 1 %}", "{% break 2 if c == 1 %}"}, {"{% lazybreak 02 %}", "{% lazybreak 2 %}"}, {"{% break 11 if c == 2 %}", "{% break 4 if c == 2 %}"},
+					// depths at and beyond the largest integers: more loops than there are — all of them end
+					{"{% break 9223372036854775807 if c == 1 %}", "{% break 3 if c == 1 %}"}, {"{% break 9223372036854775808 if c == 1 %}", "{% break 3 if c == 1 %}"}, {"{% lazybreak 99999999999999999999 %}", "{% lazybreak 3 %}"},
+					{"{% break 18446744073709551616 %}", "{% break 3 %}"}, {"{% lazybreak 18446744073709551615 if c == 0 %}", "{% lazybreak 3 if c == 0 %}"}, {"{% break 4294967296 if c == 2 %}", "{% break 3 if c == 2 %}"},
+					{"{% break 2147483648 %}", "{% break 3 %}"}, {"{% lazybreak 256 %}", "{% lazybreak 3 %}"}} {
 					mk := func(instr string) string {
 						return open_(byte(ka), "a") + "[a{%= a %}" + open_(byte(kb), "b") + "(b{%= b %}" + open_('c', "c") + "c{%= c %}" + instr + ".{% endfor %}x)" + "{% endfor %}]" + "{% endfor %}!"
 					}
@@ -444,7 +559,7 @@ func init() {
 					r.Count(sig, true)
 					r.Dist["depth-spelling"]++
 					if bad != "" || outs[0].ErrStr() != outs[1].ErrStr() || !bytes.Equal(outs[0].Out, outs[1].Out) {
-						r.Violate(sig, "a loop-control depth written with two digits / a leading zero does not end the loops the same depth written plainly ends",
+						r.Violate(sig, "a loop-control depth written with two or more digits / a leading zero / beyond the number of loops does not end the loops the same depth written plainly ends",
 							map[string]any{"source": mk(pair[0]), "plain_source": mk(pair[1]), "output": string(outs[0].Out), "plain_output": string(outs[1].Out), "error": outs[0].ErrStr(), "plain_error": outs[1].ErrStr(), "problem": bad})
 					}
 				}
@@ -535,6 +650,42 @@ func init() {
 					r.Violate(sig+" got="+string(got.Out), "after a (re-)registration an include tag does not render the template now registered under its first registered name",
 						map[string]any{"host": host, "history": hist, "inlined": inl, "output": string(got.Out), "inlined_output": string(want.Out), "error": got.ErrStr(), "panic": got.Panic})
 					break
+				}
+			}
+		}
+		// a name listed twice (or more) in an include tag changes nothing: the FIRST registered name of the list as written
+		// is rendered, on every parse of every such source
+		dyntpl.VerifResetRegistry()
+		{
+			reg := func(key, body string) {
+				t, err, pan := parseSafe([]byte(body), true)
+				if err == nil && pan == "" {
+					dyntpl.RegisterTplKey(key, t)
+				}
+			}
+			reg("c16dA", "[A]")
+			reg("c16dB", "[B]")
+			reg("c16dC", "[C]")
+			lists := []struct{ names, want string }{{"c16dA c16dB c16dA", "[A]"}, {"c16dB c16dA c16dB c16dC", "[B]"}, {"c16nope c16dC c16dC c16dA c16dB", "[C]"}, {"c16dC c16dC", "[C]"}, {"c16nope c16nope c16dB c16dA", "[B]"},
+				{"c16dB c16dA c16dC c16dA c16dC c16dB", "[B]"}, {"c16x c16y c16x c16dA c16dC c16dB c16dA", "[A]"}}
+			for li, l := range lists {
+				for rep := 0; rep < 24; rep++ {
+					kw := []string{"include", "."}[rep%2]
+					src := fmt.Sprintf("<{%% %s %s %%}>{# %d #}%d", kw, l.names, rep, rep)
+					want := fmt.Sprintf("<%s>%d", l.want, rep)
+					hk, err, pan := regTpl(src, true)
+					var got rendered
+					if err == nil && pan == "" {
+						got = renderSafe(hk, dyntpl.NewCtx())
+					}
+					sig := fmt.Sprintf("include-duplicate-names list=%d", li)
+					r.Count(fmt.Sprintf("%s rep=%d", sig, rep), true)
+					r.Dist["include-duplicate-names"]++
+					if err != nil || pan != "" || got.Err != nil || got.Panic != "" || string(got.Out) != want {
+						r.Violate(sig+" out="+string(got.Out), "an include tag whose list names a template twice does not render the first registered template of its list",
+							map[string]any{"source": src, "registered": []string{"c16dA -> [A]", "c16dB -> [B]", "c16dC -> [C]"}, "output": string(got.Out), "expected": want, "error": got.ErrStr(), "parse_error": fmt.Sprint(err)})
+						break
+					}
 				}
 			}
 		}
